@@ -23,10 +23,16 @@ package mqtt
 //@ }
 //@ end
 
+// every function value stored as a retry handle (type retryFn)
+//@ fntype retryFn
+//@   shape ctx context.Context, cli *BaseClient -> result error
+//@   assigns nothing
+
 //@ func wrapErrorWithRetry
 //@   mode int
 //@   props C19
 //@   pure
+//@   requires retry != nil
 //@   ensures[C19] err == nil ==> result == nil
 //@   ensures[C19] err == io.EOF ==> result == io.EOF
 //@   ensures[C01,C19] handle: err != nil && err != io.EOF ==> isRetryErr(result) && fresh(asRetryErr(result)) && sameFunc(retryOf(result), retry) &&
@@ -36,7 +42,8 @@ package mqtt
 //@   mode int
 //@   props C12 C19
 //@   inline
-//@   requires e != nil
+//@   requires e != nil && e.retryFn != nil
+//@   ensures[C12,C19] same_request: evCount("fntype:retryFn") == 1 && evArg[*BaseClient]("fntype:retryFn", 0, 1) == cli && result == evRet[error]("fntype:retryFn", 0, 0)
 
 //@ func (*BaseClient).ValidateMessage
 //@   mode int
